@@ -86,6 +86,13 @@ func (cr *CheckRun) PrepareEmitted(bin string, ce CorpusEntry, expectGenError bo
 	if em.LoadErr != nil {
 		cr.mu.Lock()
 		cr.SkippedProgs = append(cr.SkippedProgs, ce.Name+": generated package does not load (C01): "+truncate(em.LoadErr.Error(), 300))
+		if cr.LoadFailureRelevant != nil && !needsUserCode(em.LoadErr.Error()) && cr.LoadFailureRelevant(em.LoadErr.Error()) {
+			// the generated code this property is about does not compile: nothing can
+			// be proved of it, and the compiler's message is a concrete witness
+			cr.Obligations++
+			o := &Obligation{Name: "emitted[" + ce.Name + "]/loads", Func: "emitted[" + ce.Name + "]", Class: "load", Props: []string{cr.Prop}, Status: "failed", Formula: "the generated package type-checks", Model: em.LoadErr.Error()}
+			cr.Failures = append(cr.Failures, &Failure{Prop: cr.Prop, Obl: o, Entry: ce.Name, Verdict: "violation", Replay: &ReplayResult{Reproduced: true, Input: "corpus entry " + ce.Name, Expected: "generated package type-checks", Observed: truncate(em.LoadErr.Error(), 400), Cmd: "goag; go/packages load"}})
+		}
 		cr.mu.Unlock()
 		return &EmittedJob{Em: em}
 	}
